@@ -441,6 +441,13 @@ func buildCases(leaves []leaf, thorough bool) []kase {
 			for _, m := range modes {
 				add(kase{Kind: "expand", Mode: m})
 			}
+			if strList {
+				// placement inside a list: the reference in every position, next to a literal, another
+				// reference or an unset reference
+				for _, m := range []string{"list:ref,lit", "list:ref,ref", "list:ref,unset", "list:unset,ref", "list:ref,lit,lit", "list:lit,ref,lit"} {
+					add(kase{Kind: "expand", Mode: m})
+				}
+			}
 			// "after processing any command lines": a reference delivered by flag / env is expanded as well
 			if l.T.Kind() == reflect.String {
 				for _, tag := range l.Tags {
@@ -781,7 +788,56 @@ func expandTarget(l leaf) (v value, target string, rebuild func(elem string) val
 	return
 }
 
+// evalExpandList: list placements. Mode "list:<e1>,<e2>[,<e3>]" with elements lit | ref | unset.
+func (w *worker) evalExpandList(k kase, l leaf, res *result) {
+	elemType, _ := validationArg(l, "elementType")
+	if elemType == "string" {
+		elemType = ""
+	}
+	shape := strings.Split(strings.TrimPrefix(k.Mode, "list:"), ",")
+	env := map[string]string{}
+	var written, want []string
+	for i, e := range shape {
+		lit := stringFor(l, elemType, i)
+		switch e {
+		case "lit":
+			written, want = append(written, lit), append(want, lit)
+		case "ref":
+			name := fmt.Sprintf("VERIF_L%d", i)
+			env[name] = lit
+			written, want = append(written, "${"+name+"}"), append(want, lit)
+		case "unset":
+			// an unset reference stays as written; settings whose validation refuses that text reject the file
+			written, want = append(written, "${VERIF_NOT_SET}"), append(want, "${VERIF_NOT_SET}")
+		}
+	}
+	f1 := map[string]string{}
+	withCompanions(l, f1)[l.Path] = value{K: "l", L: written}.yamlText(l.T)
+	root, errText := w.load("", f1, map[string]string{}, nil, env)
+	hasUnset := strings.Contains(k.Mode, "unset")
+	res.Outcome = "expand:" + k.Mode
+	if !root.IsValid() {
+		if hasUnset {
+			res.Outcome = "expand:" + k.Mode + ":literal-rejected"
+			return
+		}
+		res.Sig = fmt.Sprintf("expand:%s:rejected:%s:%s", k.Mode, l.T.String(), l.Path)
+		res.What = fmt.Sprintf("%s written as %s with %s is rejected: %s", l.Path, ev.J(written), ev.J(env), errText)
+		return
+	}
+	res.Nontrivial = k.Kind + "|" + l.Path + "|" + k.Mode
+	wantText := value{K: "l", L: want}.want(l.T)
+	if got := w.eff(root, l); got != wantText {
+		res.Sig = fmt.Sprintf("expand:%s:not-expanded:%s:%s", k.Mode, l.T.String(), l.Path)
+		res.What = fmt.Sprintf("%s written as %s with %s: effective value %s, expected %s", l.Path, ev.J(written), ev.J(env), got, wantText)
+	}
+}
+
 func (w *worker) evalExpand(k kase, l leaf, res *result) {
+	if strings.HasPrefix(k.Mode, "list:") {
+		w.evalExpandList(k, l, res)
+		return
+	}
 	full, target, rebuild := expandTarget(l)
 	if len(target) < 3 {
 		panic("target too short")
